@@ -31,11 +31,17 @@ class LoggingPeer(netsim.HTTPScriptPeer):
         self.addr = addr
         self.port = port
 
+    def auto_response(self, conn, raw):
+        if raw.startswith(b'CONNECT '):
+            # a proxy grants every tunnel; what follows on this connection is the (simulated) TLS stream to the origin
+            return {'pieces': [b'HTTP/1.1 200 Connection established\r\n\r\n'], 'then': 'keep'}
+        return None
+
     def data_received(self, conn, data):
         before = len(self.requests)
         super().data_received(conn, data)
         for cid, raw in self.requests[before:]:
-            self.shared.requests.append((self.addr, self.port, raw))
+            self.shared.requests.append((self.addr, self.port, raw, cid))
 
 
 def parse_request(raw):
@@ -63,7 +69,7 @@ def host_of(url_info):
     return url_info.hostname_with_port
 
 
-def gen_hop_url(rng, host=None):
+def gen_hop_url(rng, host=None, scheme='http'):
     # (ports that are the default of *another* scheme are not default for http and must appear in Host)
     host = host or rng.choice(['a.test', 'a.test', 'b.test', 'c.test', 'a.test:8080', 'b.test:81', 'bücher.test', '127.0.2.9',
                                '[::1]', '[::1]:8080', 'a.test:443', 'c.test:21', 'b.test:70', '[::1]:443', 'a.test:80',
@@ -73,7 +79,7 @@ def gen_hop_url(rng, host=None):
                           for _ in range(rng.randrange(0, 4)))
     query = rng.choice(['', '', 'a=1', 'q=x y', 'q=%0d%0aInjected: 1', 'r=http://b.test/', 'é=ü', 'a=b&c=d#frag', 'x=%20HTTP/1.1'])
     userinfo = ''
-    return 'http://' + userinfo + host + path + ('?' + query if query else '')
+    return scheme + '://' + userinfo + host + path + ('?' + query if query else '')
 
 
 # what a hostile server may put after 'sidN=' (the Set-Cookie line itself is one header line)
@@ -84,12 +90,14 @@ COOKIE_VALUES = [None, None, None, 'a b', 'a\tb', 'x"y', '"q q"', '\xe9', 'a,b',
 def gen_case(rng):
     n_hops = rng.choice([1, 1, 2, 3, 4, 6])
     hops = []
+    proxy = rng.choice([False, False, False, False, False, True, True, 'tls', 'tunnel', 'tunnel'])
     for i in range(n_hops):
-        hops.append({'url': gen_hop_url(rng), 'code': rng.choice(REDIRECT_CODES), 'set_cookie': rng.random() < 0.4,
+        # 'tunnel': https URLs through a proxy (CONNECT, then TLS inside the tunnel)
+        hops.append({'url': gen_hop_url(rng, scheme='https' if proxy == 'tunnel' else 'http'), 'code': rng.choice(REDIRECT_CODES), 'set_cookie': rng.random() < 0.4,
                      'location_style': rng.choice(['absolute', 'absolute', 'relative-if-same-host', 'raw']),
                      'cookie_value': rng.choice(COOKIE_VALUES)})
     case = {'hops': hops, 'credentials': None, 'referer': rng.choice([None, 'http://a.test/from page', 'https://s.test/secret']),
-            'method': 'GET', 'challenge': False, 'preset_cookie': rng.random() < 0.5, 'proxy': rng.choice([False, False, False, False, False, True, True, 'tls'])}
+            'method': 'GET', 'challenge': False, 'preset_cookie': rng.random() < 0.5, 'proxy': proxy}
     if rng.random() < 0.35:
         case['credentials'] = rng.choice([['user', 'pw'], ['us er', 'p:w'], ['ü', 'pä'], ['a\r\nX: 1', 'b']])
         # 'url': credentials inside the first URL (sent at once); 'login': configured user/password (as --http-user),
@@ -121,8 +129,7 @@ def run_case(case, part):
     first = hops[0]['url']
     if case['credentials'] and case.get('credential_mode', 'url') == 'url':
         u, p = case['credentials']
-        first = first.replace('http://', 'http://{}:{}@'.format(urllib.parse.quote(u, safe=''),
-                                                                urllib.parse.quote(p, safe='')), 1)
+        first = first.replace('://', '://{}:{}@'.format(urllib.parse.quote(u, safe=''), urllib.parse.quote(p, safe='')), 1)
         try:
             infos[0] = URLInfo.parse(first)
         except ValueError:
@@ -238,12 +245,30 @@ def run_case(case, part):
     if outcome.get('error'):
         part.count('sessions_ended_with_error')
     expected = outcome['expected']
-    reqs = shared.requests
+    # tunnel requests (CONNECT) are judged on their own and taken out of the sequence that is aligned with the hops
+    all_reqs = shared.requests
+    reqs = []
+    tunnel_of = {}      # connection id -> authority the tunnel was opened to
+    for addr, port, raw, cid in all_reqs:
+        if raw.startswith(b'CONNECT '):
+            part.count('connect_requests_captured')
+            m = re.match(br'^CONNECT ([!-~]+) HTTP/1\.[01]\r\n', raw)
+            if case.get('proxy') != 'tunnel':
+                part.violation('connect-request-without-tunnel-mode', {'raw': raw[:200]}, replay)
+            elif not m:
+                part.violation('request-not-well-formed/connect-line', {'raw': raw[:200]}, replay)
+            else:
+                tunnel_of[cid] = m.group(1).decode('latin-1')
+                _, _, _, cfields, cproblems = parse_request(raw.replace(b'CONNECT ', b'GET ', 1))
+                if cproblems:
+                    part.violation('request-not-well-formed/connect-header', {'problem': cproblems[0], 'raw': raw[:200]}, replay)
+            continue
+        reqs.append((addr, port, raw, cid))
     codes = [h['code'] for h in hops[:-1]]
     repeat_chain = any(c in (307, 308) for c in codes)
     cls = 'replay-redirect' if repeat_chain else ('redirect' if codes else 'direct')
     if case.get('proxy'):
-        cls = ('tls-proxied-' if case['proxy'] == 'tls' else 'proxied-') + cls
+        cls = {'tls': 'tls-proxied-', 'tunnel': 'tunnelled-'}.get(case['proxy'], 'proxied-') + cls
     part.nontrivial_case('{}/{}/{}/{}'.format(cls, len(hops), bool(case['credentials']), sorted(set(codes))))
     # which cookies / credentials each host may legitimately receive
     cookie_origin = {}
@@ -258,7 +283,7 @@ def run_case(case, part):
     if case.get('preset_cookie'):
         seen_setcookie['presid'] = infos[0].hostname
     cred_host = host_of(infos[0]) if case['credentials'] else None
-    for k, (addr, port, raw) in enumerate(reqs):
+    for k, (addr, port, raw, cid) in enumerate(reqs):
         part.count('requests_captured')
         if k >= len(expected):
             part.violation('more-requests-than-hops/' + cls, {'extra': raw[:200], 'hops': [h['url'] for h in hops]}, replay)
@@ -271,13 +296,25 @@ def run_case(case, part):
                            {'problem': problems[0], 'raw': raw[:300], 'url': info.url}, replay)
             continue
         want_target = info.path + ('?' + info.query if info.query else '')
-        if case.get('proxy'):
+        if case.get('proxy') == 'tunnel':
+            # inside a tunnel the origin is addressed directly: origin-form target; the tunnel itself must have been
+            # opened to this hop's host and port (port always explicit in CONNECT)
+            part.count('tunnelled_requests_captured')
+            want_authority = '{}:{}'.format('[' + info.hostname + ']' if ':' in info.hostname else info.hostname, info.port)
+            if tunnel_of.get(cid) is None:
+                part.violation('https-request-to-proxy-outside-tunnel/' + cls, {'raw': raw[:200], 'url': info.url}, replay)
+            elif tunnel_of[cid] != want_authority:
+                part.violation('request-sent-through-tunnel-to-other-authority/' + cls,
+                               {'tunnel': tunnel_of[cid], 'expected': want_authority, 'url': info.url}, replay)
+            else:
+                part.count('tunnel_authority_matches_hop')
+        elif case.get('proxy'):
             # absolute-form: the hop's normalized URL
             want_target = info.url
             part.count('proxied_requests_captured')
             if case['proxy'] == 'tls':
                 part.count('requests_relayed_by_tls_proxy_captured')
-        if case.get('proxy'):
+        if case.get('proxy') and case['proxy'] != 'tunnel':
             # a relative Location keeps the authority of its base, including user info (RFC 3986 5.2): compare the
             # absolute form without user info
             strip = lambda u: re.sub(r'^(https?://)[^/@]*@', r'\1', u)  # noqa
@@ -352,7 +389,7 @@ def main():
                   'query material (encoded CR LF, spaces, NUL, "HTTP/1.1", quotes, non-ASCII), Set-Cookie on some hops, credentials '
                   'in the first URL with and without a 401 challenge, referrers; every captured request parsed strictly. '
                   'distinct_nontrivial = distinct (chain class, hops, credentials, redirect codes)')
-    check.assumptions = ['tunnelled (CONNECT) connections are not exercised; requests relayed by a plain or a TLS proxy are']
+    check.assumptions = ['TLS itself is simulated (plain bytes after the handshake point); certificate checks are outside this property']
     target = 'checks.c16_requests:worker'
     if check.args.replay:
         with open(check.args.replay) as f:
